@@ -185,12 +185,11 @@ func c02V6Shape() (s string, nf int, hasEll, hasTail bool) {
 // VerifC02IPv6Shapes: the shape family in which every field count, ellipsis
 // position and IPv4 tail combination occurs (strings up to ~35 bytes).
 func VerifC02IPv6Shapes() {
-	s, nf, hasEll, hasTail := c02V6Shape()
+	s, _, _, _ := c02V6Shape()
 	got := IsValidIPString(s)
 	want := c02RefAddr(s)
 	verifrt.ObserveString("s", s)
 	verifrt.ObserveBool("got", got)
-	verifrt.Known("C02-v6-7fields-v4tail", nf == 7 && !hasEll && hasTail)
 	verifrt.Assert(got == want, "IsValidIPString disagrees with netip.ParseAddr on an IPv6-shaped text")
 	if got {
 		verifrt.Cover("accepted")
@@ -333,6 +332,42 @@ func VerifC02LongPorts() {
 	verifrt.ObserveString("s", s)
 	verifrt.ObserveBool("got", got)
 	verifrt.Assert(got == want, "IsValidIPPortString disagrees with netip.ParseAddrPort on a long decimal port")
+	if got {
+		verifrt.Cover("accepted")
+	} else {
+		verifrt.Cover("rejected")
+	}
+}
+
+// VerifC02HostnameIDN: internationalised names whose raw and punycode lengths
+// lie on opposite sides of the 253-byte limit (both directions), with one
+// arbitrary ASCII byte in the final label: the two twins must still agree.
+func VerifC02HostnameIDN() {
+	var s string
+	switch verifrt.Choice(2) {
+	case 0:
+		// k two-byte labels: 3k raw bytes, 8k punycode bytes
+		k := 29 + verifrt.Choice(4)
+		for i := 0; i < k; i++ {
+			s += "я."
+		}
+	default:
+		// k labels of 40 two-byte letters: 81k raw bytes, far fewer in punycode
+		k := 3 + verifrt.Choice(3)
+		for i := 0; i < k; i++ {
+			for j := 0; j < 40; j++ {
+				s += "а"
+			}
+			s += "."
+		}
+	}
+	c := verifrt.Byte()
+	verifrt.Assume(c < 0x80 && c != '.' && c != 'x')
+	s += "c" + string([]byte{c})
+	got := IsValidHostname(s)
+	want := ValidateHostname(s) == nil
+	verifrt.ObserveBool("got", got)
+	verifrt.Assert(got == want, "IsValidHostname disagrees with ValidateHostname on an internationalised name")
 	if got {
 		verifrt.Cover("accepted")
 	} else {
